@@ -7,7 +7,7 @@ use std::collections::{HashMap, HashSet};
 
 // ---------------------------------------------------------------- paths / strategy
 
-#[derive(Clone, Debug, PartialEq, Eq, Hash)]
+#[derive(Clone, Debug, PartialEq, Eq, Hash, PartialOrd, Ord)]
 pub enum Seg {
     Key(String),
     Idx(usize),
